@@ -106,97 +106,129 @@ fn expected(
 }
 
 /// bounded: a decision table of concrete (cell shape, priority order, associativity pair, earlier-reduction length) cases,
-/// one harness per cell shape, chosen to cover every branch of the documented rule and the interplay between the
-/// shift/reduce and the reduce/reduce stage; in every case empty / non-empty production, LR / GLR and the four flags
-/// prefer_shifts, prefer_shifts_over_empty, nops, nopse are symbolic.
-/// Why not more: one case costs CBMC about a minute (150 000 symex steps through Vec::clone / partition / retain / map /
-/// collect / all); a version with every scalar symbolic exhausted 30 GB, an exhaustive enumeration of priorities in
-/// {9,10,11} x associativities x lengths (11 664 cases for the largest shape) would take days.
+/// one or two cases per harness (more exhausts memory: four cases peaked at 20 GB), chosen to cover every branch of the documented rule and the interplay between
+/// the shift/reduce and the reduce/reduce stage.  Per case only the attributes the rule says can matter there are
+/// symbolic (last argument): M0 none (empty = false, LR, all flags off), MF the four flags prefer_shifts,
+/// prefer_shifts_over_empty, nops, nopse and empty / non-empty, ML LR / GLR and empty / non-empty, MA all of them.
+/// Why not more: one fully symbolic case costs CBMC about a minute and 2-5 GB (150 000 symex steps through Vec::clone /
+/// partition / retain / map / collect / all); a version with every scalar symbolic over its whole type exhausted 30 GB;
+/// an exhaustive enumeration of priorities in {9,10,11} x associativities x lengths would be 11 664 cases for the largest
+/// shape.
 /// Argument order of conflict_case: has_shift, accept, nred, prio, shift_prio, [prio r1, prio r2], prod assoc, term assoc
-/// (0 none, 1 left, 2 right), len r1, len r2.
+/// (0 none, 1 left, 2 right), len r1, len r2, mode.
+const M0: u8 = 0;
+const MF: u8 = 1;
+const ML: u8 = 2;
+const MA: u8 = 3;
+
 #[kani::proof]
 #[kani::unwind(5)]
-fn c5_shift_only() {
-    // priority decides
-    conflict_case(true, false, 0, 9, 10, [10, 10], 0, 0, 0, 0);
-    conflict_case(true, false, 0, 11, 10, [10, 10], 2, 0, 0, 0);
-    // equal priority: production associativity
-    conflict_case(true, false, 0, 10, 10, [10, 10], 1, 0, 0, 0);
-    conflict_case(true, false, 0, 10, 10, [10, 10], 2, 0, 0, 0);
-    // equal priority: terminal associativity, alone and overriding the production's
-    conflict_case(true, false, 0, 10, 10, [10, 10], 0, 1, 0, 0);
-    conflict_case(true, false, 0, 10, 10, [10, 10], 0, 2, 0, 0);
-    conflict_case(true, false, 0, 10, 10, [10, 10], 2, 1, 0, 0);
-    conflict_case(true, false, 0, 10, 10, [10, 10], 1, 2, 0, 0);
-    // nothing but the flags
-    conflict_case(true, false, 0, 10, 10, [10, 10], 0, 0, 0, 0);
+fn c5_prio() {
+    // the higher priority wins
+    conflict_case(true, false, 0, 9, 10, [10, 10], 0, 0, 0, 0, M0);
+    conflict_case(true, false, 0, 11, 10, [10, 10], 2, 0, 0, 0, ML);
     kani::cover!(true, "all cases executed");
 }
 #[kani::proof]
 #[kani::unwind(5)]
-fn c5_accept_only() {
-    // ACCEPT competes with the default priority 10
-    conflict_case(true, true, 0, 9, 10, [10, 10], 0, 0, 0, 0);
-    conflict_case(true, true, 0, 11, 10, [10, 10], 0, 0, 0, 0);
-    conflict_case(true, true, 0, 10, 10, [10, 10], 0, 0, 0, 0);
-    conflict_case(true, true, 0, 10, 10, [10, 10], 1, 0, 0, 0);
+fn c5_prod_assoc() {
+    // equal priority: the production's associativity (left keeps the reduction, right the shift)
+    conflict_case(true, false, 0, 10, 10, [10, 10], 1, 0, 0, 0, M0);
+    conflict_case(true, false, 0, 10, 10, [10, 10], 2, 0, 0, 0, M0);
     kani::cover!(true, "all cases executed");
 }
 #[kani::proof]
 #[kani::unwind(5)]
-fn c5_red_only() {
-    // reduce/reduce with one earlier reduction: lower, higher, equal priority; empty / non-empty earlier reduction
-    conflict_case(false, false, 1, 9, 10, [10, 10], 0, 0, 1, 0);
-    conflict_case(false, false, 1, 11, 10, [10, 10], 0, 0, 1, 0);
-    conflict_case(false, false, 1, 10, 10, [10, 10], 0, 0, 1, 0);
-    conflict_case(false, false, 1, 10, 10, [10, 10], 0, 0, 0, 0);
-    conflict_case(false, false, 1, 11, 10, [10, 10], 0, 0, 0, 0);
+fn c5_term_overrides() {
+    // equal priority: the terminal's associativity overrides the production's
+    conflict_case(true, false, 0, 10, 10, [10, 10], 2, 1, 0, 0, M0);
+    conflict_case(true, false, 0, 10, 10, [10, 10], 1, 2, 0, 0, M0);
     kani::cover!(true, "all cases executed");
 }
 #[kani::proof]
 #[kani::unwind(5)]
-fn c5_two_reds() {
-    // lower than all, higher than all, between, equal to all; one of the earlier reductions empty or none
-    conflict_case(false, false, 2, 9, 10, [10, 11], 0, 0, 1, 1);
-    conflict_case(false, false, 2, 11, 10, [9, 10], 0, 0, 0, 1);
-    conflict_case(false, false, 2, 10, 10, [9, 11], 0, 0, 0, 1);
-    conflict_case(false, false, 2, 10, 10, [9, 11], 0, 0, 1, 1);
-    conflict_case(false, false, 2, 10, 10, [10, 10], 0, 0, 0, 0);
-    conflict_case(false, false, 2, 10, 10, [10, 11], 0, 0, 1, 0);
+fn c5_flags() {
+    // nothing but prefer_shifts / prefer_shifts_over_empty / nops / nopse / empty decides
+    conflict_case(true, false, 0, 10, 10, [10, 10], 0, 0, 0, 0, MF);
     kani::cover!(true, "all cases executed");
 }
 #[kani::proof]
 #[kani::unwind(5)]
-fn c5_shift_red() {
+fn c5_rr_prio() {
+    // reduce/reduce: strictly lower than all is dropped, strictly higher than all replaces them
+    conflict_case(false, false, 1, 9, 10, [10, 10], 0, 0, 1, 0, M0);
+    conflict_case(false, false, 2, 11, 10, [9, 10], 0, 0, 0, 1, M0);
+    kani::cover!(true, "all cases executed");
+}
+#[kani::proof]
+#[kani::unwind(5)]
+fn c5_rr_mixed() {
+    // reduce/reduce, neither: LR drops empty reductions, GLR keeps everything
+    conflict_case(false, false, 2, 10, 10, [9, 11], 0, 0, 0, 1, ML);
+    kani::cover!(true, "all cases executed");
+}
+#[kani::proof]
+#[kani::unwind(5)]
+fn c5_f3() {
     // the shape of defect F3: a reduce that beats the shift meets a cell that already holds [Shift, Reduce]
-    conflict_case(true, false, 1, 11, 10, [10, 10], 0, 0, 1, 0);
-    conflict_case(true, false, 1, 11, 10, [12, 10], 0, 0, 1, 0);
-    conflict_case(true, false, 1, 11, 10, [11, 10], 0, 0, 0, 0);
-    conflict_case(true, false, 1, 10, 10, [10, 10], 1, 0, 1, 0);
-    conflict_case(true, false, 1, 10, 10, [9, 10], 0, 1, 1, 0);
-    // the shift wins: the cell must stay as it is
-    conflict_case(true, false, 1, 9, 10, [10, 10], 0, 0, 1, 0);
-    conflict_case(true, false, 1, 10, 10, [10, 10], 0, 2, 1, 0);
-    // nothing decides: both stay, then reduce/reduce
-    conflict_case(true, false, 1, 10, 10, [10, 10], 0, 0, 1, 0);
-    conflict_case(true, false, 1, 10, 10, [11, 10], 0, 0, 0, 0);
+    conflict_case(true, false, 1, 11, 10, [10, 10], 0, 0, 1, 0, M0);
+    conflict_case(true, false, 1, 10, 10, [10, 10], 1, 0, 1, 0, ML);
+    kani::cover!(true, "all cases executed");
+}
+#[kani::proof]
+#[kani::unwind(5)]
+fn c5_sr_kept() {
+    // [Shift, Reduce]: the shift wins and the cell stays; nothing decides and both stay, then reduce/reduce
+    conflict_case(true, false, 1, 9, 10, [10, 10], 0, 0, 1, 0, M0);
+    conflict_case(true, false, 1, 10, 10, [10, 10], 0, 0, 1, 0, MA);
+    kani::cover!(true, "all cases executed");
+}
+#[kani::proof]
+#[kani::unwind(5)]
+fn c5_term_alone() {
+    // equal priority: terminal associativity alone
+    conflict_case(true, false, 0, 10, 10, [10, 10], 0, 1, 0, 0, M0);
+    conflict_case(true, false, 0, 10, 10, [10, 10], 0, 2, 0, 0, M0);
+    kani::cover!(true, "all cases executed");
+}
+#[kani::proof]
+#[kani::unwind(5)]
+fn c5_accept() {
+    // ACCEPT competes with the default priority 10
+    conflict_case(true, true, 0, 10, 10, [10, 10], 0, 0, 0, 0, MF);
+    conflict_case(true, true, 0, 11, 10, [10, 10], 0, 0, 0, 0, M0);
+    kani::cover!(true, "all cases executed");
+}
+#[kani::proof]
+#[kani::unwind(5)]
+fn c5_rr_equal() {
+    // reduce/reduce with equal priorities
+    conflict_case(false, false, 1, 10, 10, [10, 10], 0, 0, 0, 0, ML);
+    conflict_case(false, false, 2, 10, 10, [10, 10], 0, 0, 0, 0, ML);
+    kani::cover!(true, "all cases executed");
+}
+#[kani::proof]
+#[kani::unwind(5)]
+fn c5_sr_lower() {
+    // the reduce beats the shift but loses to the earlier reduction; terminal right keeps the shift
+    conflict_case(true, false, 1, 11, 10, [12, 10], 0, 0, 1, 0, M0);
+    conflict_case(true, false, 1, 10, 10, [10, 10], 0, 2, 1, 0, M0);
     kani::cover!(true, "all cases executed");
 }
 #[kani::proof]
 #[kani::unwind(5)]
 fn c5_accept_red() {
-    conflict_case(true, true, 1, 11, 10, [10, 10], 0, 0, 1, 0);
-    conflict_case(true, true, 1, 10, 10, [10, 10], 0, 0, 0, 0);
-    conflict_case(true, true, 1, 9, 10, [10, 10], 0, 0, 1, 0);
+    // [Accept, Reduce]
+    conflict_case(true, true, 1, 11, 10, [10, 10], 0, 0, 1, 0, M0);
+    conflict_case(true, true, 1, 10, 10, [10, 10], 0, 0, 0, 0, MA);
     kani::cover!(true, "all cases executed");
 }
 #[kani::proof]
 #[kani::unwind(5)]
-fn c5_shift_two_reds() {
-    conflict_case(true, false, 2, 11, 10, [10, 12], 0, 0, 0, 1);
-    conflict_case(true, false, 2, 10, 10, [9, 11], 0, 0, 1, 1);
-    conflict_case(true, false, 2, 10, 10, [10, 10], 1, 0, 0, 0);
-    conflict_case(true, false, 2, 9, 10, [10, 10], 0, 0, 1, 1);
+fn c5_srr() {
+    // [Shift, Reduce, Reduce]
+    conflict_case(true, false, 2, 11, 10, [10, 12], 0, 0, 0, 1, ML);
+    conflict_case(true, false, 2, 9, 10, [10, 10], 0, 0, 1, 1, M0);
     kani::cover!(true, "all cases executed");
 }
 
@@ -207,14 +239,15 @@ fn assoc_of(a: u8) -> Associativity {
 /// One case against the RECORD copy of the lifted statements (see build/gen/conflict_block.rs).
 #[allow(clippy::too_many_arguments)]
 fn conflict_case(has_shift: bool, accept: bool, nred: usize, prio: u32, shift_prio: u32,
-                 red_prio: [u32; 2], pa: u8, ta: u8, l1: usize, l2: usize) {
-    let empty: bool = kani::any();
-    let lr: bool = kani::any();
-    let nops: bool = kani::any();
-    let nopse: bool = kani::any();
+                 red_prio: [u32; 2], pa: u8, ta: u8, l1: usize, l2: usize, mode: u8) {
+    let flags = mode == MF || mode == MA;
+    let empty: bool = if mode != M0 { kani::any() } else { false };
+    let lr: bool = if mode == ML || mode == MA { kani::any() } else { true };
+    let nops: bool = if flags { kani::any() } else { false };
+    let nopse: bool = if flags { kani::any() } else { false };
     let settings = RecSettings {
-        prefer_shifts: kani::any(),
-        prefer_shifts_over_empty: kani::any(),
+        prefer_shifts: if flags { kani::any() } else { false },
+        prefer_shifts_over_empty: if flags { kani::any() } else { false },
         parser_algo: if lr { ParserAlgo::LR } else { ParserAlgo::GLR },
     };
     // productions 1, 2 are the reductions already in the cell, production 3 is the new one
@@ -237,7 +270,7 @@ fn conflict_case(has_shift: bool, accept: bool, nred: usize, prio: u32, shift_pr
     let new_reduce = Action::Reduce(ProdIndex(NEW), position);
 
     // ---- the cell before: [Shift|Accept]? then 0..2 reductions (by production 1 / 2, length 0 or 1), not empty ----
-    let mut cell: Vec<Action> = Vec::new();
+    let mut cell: Vec<Action> = Vec::with_capacity(8); // pushes in the lifted statements then never reallocate
     if has_shift { cell.push(if accept { Action::Accept } else { Action::Shift(StateIndex(7)) }); }
     if nred >= 1 { cell.push(Action::Reduce(ProdIndex(1), l1)); }
     if nred >= 2 { cell.push(Action::Reduce(ProdIndex(2), l2)); }
@@ -279,14 +312,15 @@ fn check_cell(cell: &Vec<Action>, has_shift: bool, accept: bool, nred: usize, l1
 /// One case against the copy compiled with the REAL types (LRState, LRItem, Production, Terminal, Settings, Grammar).
 #[allow(clippy::too_many_arguments)]
 fn conflict_case_real(has_shift: bool, accept: bool, nred: usize, prio: u32, shift_prio: u32,
-                      red_prio: [u32; 2], pa: u8, ta: u8, l1: usize, l2: usize) {
-    let empty: bool = kani::any();
-    let lr: bool = kani::any();
-    let nops: bool = kani::any();
-    let nopse: bool = kani::any();
+                      red_prio: [u32; 2], pa: u8, ta: u8, l1: usize, l2: usize, mode: u8) {
+    let flags = mode == MF || mode == MA;
+    let empty: bool = if mode != M0 { kani::any() } else { false };
+    let lr: bool = if mode == ML || mode == MA { kani::any() } else { true };
+    let nops: bool = if flags { kani::any() } else { false };
+    let nopse: bool = if flags { kani::any() } else { false };
     let mut settings_owned = base_settings(None, None);
-    settings_owned.prefer_shifts = kani::any();
-    settings_owned.prefer_shifts_over_empty = kani::any();
+    settings_owned.prefer_shifts = if flags { kani::any() } else { false };
+    settings_owned.prefer_shifts_over_empty = if flags { kani::any() } else { false };
     settings_owned.parser_algo = if lr { ParserAlgo::LR } else { ParserAlgo::GLR };
     let mk = |prio: u32, assoc: Associativity, nops: bool, nopse: bool, rhs: usize, idx: usize| Production {
         idx: ProdIndex(idx),
@@ -312,7 +346,7 @@ fn conflict_case_real(has_shift: bool, accept: bool, nred: usize, prio: u32, shi
     let position: usize = if lr { prod_len } else { 0 };
     let item = LRItem { prod: ProdIndex(NEW), prod_len, rn_len: if lr { None } else { Some(position) }, position, follow: RefCell::new(Follow::new()) };
     let new_reduce = Action::Reduce(ProdIndex(NEW), position);
-    let mut cell: Vec<Action> = Vec::new();
+    let mut cell: Vec<Action> = Vec::with_capacity(8); // pushes in the lifted statements then never reallocate
     if has_shift { cell.push(if accept { Action::Accept } else { Action::Shift(StateIndex(7)) }); }
     if nred >= 1 { cell.push(Action::Reduce(ProdIndex(1), l1)); }
     if nred >= 2 { cell.push(Action::Reduce(ProdIndex(2), l2)); }
@@ -338,12 +372,12 @@ fn conflict_case_real(has_shift: bool, accept: bool, nred: usize, prio: u32, shi
 #[kani::proof]
 #[kani::unwind(5)]
 fn c5_real_types_shift() {
-    conflict_case_real(true, false, 0, 10, 10, [10, 10], 0, 0, 0, 0);
+    conflict_case_real(true, false, 0, 10, 10, [10, 10], 0, 0, 0, 0, MF);
 }
 #[kani::proof]
 #[kani::unwind(5)]
 fn c5_real_types_f3() {
-    conflict_case_real(true, false, 1, 11, 10, [10, 10], 0, 0, 1, 0);
+    conflict_case_real(true, false, 1, 11, 10, [10, 10], 0, 0, 1, 0, M0);
 }
 
 /// C01: LRItem predicates.  complete (loop-free, all usize values).
@@ -454,3 +488,54 @@ fn sort_terminals_rule() {
     std::mem::forget(grammar);
     std::mem::forget(settings);
 }
+
+// ---------------------------------------------------------------------------------------------------------------
+/// C16: LRTable::get_conflicts never aborts, whatever unresolved cell it meets (fix 6e9f325: [Accept, Reduce]); it
+/// reports one conflict per pair of actions of a cell.  bounded(one state; concrete cells of 2 and 3 actions of every
+/// kind mix: [S,R], [R,R], [A,R], [S,R,R], [R,R,R], [A,R,R]).
+#[kani::proof]
+#[kani::unwind(8)]
+fn get_conflicts_total() {
+    let cells: [(u8, usize); 6] = [(1, 1), (0, 2), (2, 1), (1, 2), (0, 3), (2, 2)]; // (0 none / 1 shift / 2 accept, #reductions)
+    let mut c = 0;
+    while c < 6 {
+        let (first, nred) = cells[c];
+        let settings = base_settings(None, None);
+        let terms = vec![Terminal { idx: TermIndex(0), ..Default::default() }, Terminal { idx: TermIndex(1), ..Default::default() }];
+        let grammar = mk_grammar(vec![], terms);
+        let mut state = LRState::new(&grammar, StateIndex(0), SymbolIndex(0));
+        let t = if first == 2 { TermIndex(0) } else { TermIndex(1) };
+        if first == 1 { state.actions[t].push(Action::Shift(StateIndex(1))); }
+        if first == 2 { state.actions[t].push(Action::Accept); }
+        let mut r = 0;
+        while r < nred {
+            state.actions[t].push(Action::Reduce(ProdIndex(r + 1), 1));
+            r += 1;
+        }
+        let n = state.actions[t].len();
+        let table = LRTable {
+            states: StateVec(vec![state]),
+            layout_state: None,
+            grammar: &grammar,
+            settings: &settings,
+            first_sets: SymbolVec::new(),
+            production_rn_lengths: None,
+        };
+        let conflicts = table.get_conflicts();
+        assert!(conflicts.len() == n * (n - 1) / 2, "C16: one conflict per pair of actions");
+        let mut i = 0;
+        while i < conflicts.len() {
+            assert!(conflicts[i].follow == t);
+            i += 1;
+        }
+        std::mem::forget(conflicts);
+        std::mem::forget(table);
+        std::mem::forget(grammar);
+        std::mem::forget(settings);
+        c += 1;
+    }
+    kani::cover!(true, "all cases executed");
+}
+
+// Concrete playback (./check <id> --replay): Kani's generated unit test is written to this file, which is empty otherwise.
+include!("/verif/build/gen/playback_compiler_table.rs");
